@@ -61,7 +61,9 @@ func NewStackingContext(box Box, childContexts []StackingContext, blocks []bo.Bo
 	// by z-index, then tree order.
 
 	zIndex := box.Box().Style.GetZIndex()
-	if zIndex.String == "auto" {
+	// z-index only applies to positioned boxes (and to flex and grid items)
+	applies := box.Box().Style.GetPosition().String != "static" || box.Box().IsFlexItem || box.Box().IsGridItem
+	if zIndex.String == "auto" || !applies {
 		self.zIndex = 0
 	} else {
 		self.zIndex = zIndex.Int
